@@ -7,7 +7,6 @@ import (
 	"go/ast"
 	"go/token"
 	"go/types"
-	"strings"
 )
 
 // fact is a condition known to hold at a program point.
@@ -259,468 +258,6 @@ func ruleNoCoercion(c *Ctx, r *Report, rule string) {
 		r.ok(rule, "library", "none of the forbidden reflect operations is called")
 	}
 	r.Extra["reflect_forbidden_table_size"] = len(reflForbidden)
-}
-
-// ruleReflectGuards: each partial reflect call in Bind's code is guarded.
-func ruleReflectGuards(c *Ctx, r *Report, rule string) { ruleReflectGuardsMode(c, r, rule, false) }
-
-// ruleReflectGuardsMode: with panicOnly, the fresh-slice obligations (which
-// concern what the target holds after an error, not crashes) are left to C15/C05.
-func ruleReflectGuardsMode(c *Ctx, r *Report, rule string, panicOnly bool) {
-	min := 14
-	if panicOnly {
-		min = 11
-	}
-	r.rule(rule, min, "every reflect call in copyBlocks/copyBlock with a panicking precondition is dominated by the check that establishes it: Elem after Kind()==Pointer; Type().Elem() after Kind()==Slice; MakeSlice on that slice type; ValueOf(x).Type() after x != nil; Set after CanSet and AssignableTo; copyBlock (NumField, Field, FieldByNameFunc, FieldByIndexErr need a struct) only on values whose Kind()==Struct was checked; x.(Block) under AssignableTo(blockType)")
-	funcs := c.bindFuncs()
-	if len(funcs) != 2 {
-		r.bad(rule, "anchors", "copyBlocks / copyBlock not found", "")
-		return
-	}
-	copyBlocks, copyBlock := funcs[0], funcs[1]
-	r.fn("copyBlocks", "copyBlock", "copyBlock$setField")
-	site := 0
-	check := func(ok bool, fn, what, okMsg, badMsg string, pos token.Pos) {
-		site++
-		r.Sites++
-		r.check(ok, rule, fmt.Sprintf("%s/%s", fn, what), okMsg, badMsg, c.pos(pos))
-	}
-	recvObj := func(call *ast.CallExpr) types.Object {
-		if sel, ok := call.Fun.(*ast.SelectorExpr); ok {
-			if id, ok := stripParens(sel.X).(*ast.Ident); ok {
-				return c.objOf(id)
-			}
-		}
-		return nil
-	}
-	// ---- copyBlocks
-	counts := map[string]int{}
-	key := func(name string) string {
-		counts[name]++
-		if counts[name] == 1 {
-			return name
-		}
-		return fmt.Sprintf("%s#%d", name, counts[name])
-	}
-	walkCalls(copyBlocks.Body, false, func(call *ast.CallExpr) {
-		name := c.calleeName(call)
-		facts := c.factsAt(copyBlocks.Body, call)
-		switch name {
-		case "reflect.Value.Elem":
-			obj := recvObj(call)
-			check(obj != nil && c.hasKindFact(facts, obj, "Pointer", "Ptr", "Interface"), "copyBlocks", key("Elem"), "after Kind() == Pointer", "Value.Elem() is reached without a dominating Kind() == Pointer check on the same value (panics for other kinds)", call.Pos())
-		case "reflect.Type.Elem":
-			// recv is X.Type() with X slice-kinded
-			okk := false
-			if sel, ok := call.Fun.(*ast.SelectorExpr); ok {
-				if inner, ok := stripParens(sel.X).(*ast.CallExpr); ok && c.calleeName(inner) == "reflect.Value.Type" {
-					if obj := recvObj(inner); obj != nil && c.hasKindFact(facts, obj, "Slice", "Array", "Pointer", "Ptr", "Map", "Chan") {
-						okk = true
-					}
-				}
-			}
-			check(okk, "copyBlocks", key("Type.Elem"), "after Kind() == Slice", "Type.Elem() is reached without a dominating Kind() == Slice check (panics for struct, int, …)", call.Pos())
-		case "reflect.MakeSlice":
-			if panicOnly {
-				return
-			}
-			okk := false
-			if inner, ok := stripParens(call.Args[0]).(*ast.CallExpr); ok && c.calleeName(inner) == "reflect.Value.Type" {
-				if obj := recvObj(inner); obj != nil && c.hasKindFact(facts, obj, "Slice") {
-					okk = true
-				}
-			}
-			// length and capacity: len(blocks), both
-			lenOK := len(call.Args) == 3 && types.ExprString(call.Args[1]) == types.ExprString(call.Args[2])
-			if lc, ok := stripParens(call.Args[1]).(*ast.CallExpr); !ok || c.calleeName(lc) != "len" {
-				lenOK = false
-			}
-			check(okk && lenOK, "copyBlocks", key("MakeSlice"), "fresh slice of the target's type, len = cap = number of blocks", "reflect.MakeSlice must build a fresh slice of the (checked) slice type with length and capacity len(blocks)", call.Pos())
-		case "reflect.Value.Index":
-			if panicOnly {
-				return
-			}
-			// newSlice.Index(i), i ranging over the blocks the slice was sized for
-			obj := recvObj(call)
-			def, n := c.singleDef(copyBlocks.Body, obj)
-			okk := n == 1
-			if dc, ok := def.(*ast.CallExpr); !ok || c.calleeName(dc) != "reflect.MakeSlice" {
-				okk = false
-			}
-			check(okk, "copyBlocks", key("Index"), "index into the slice just made, within its length", "Value.Index is used on something other than the freshly made slice", call.Pos())
-		case "reflect.Value.Set":
-			if panicOnly {
-				return
-			}
-			obj := recvObj(call)
-			okk := obj != nil && c.hasKindFact(facts, obj, "Slice")
-			if okk {
-				// argument is the fresh slice; the call is not inside the fill loop
-				aobj := c.objOfExpr(call.Args[0])
-				def, n := c.singleDef(copyBlocks.Body, aobj)
-				if dc, ok := def.(*ast.CallExpr); !ok || n != 1 || c.calleeName(dc) != "reflect.MakeSlice" {
-					okk = false
-				}
-				pm := parentMap(copyBlocks.Body)
-				for p := pm[call]; p != nil; p = pm[p] {
-					if _, inLoop := p.(*ast.RangeStmt); inLoop {
-						okk = false
-					}
-					if _, inLoop := p.(*ast.ForStmt); inLoop {
-						okk = false
-					}
-				}
-			}
-			check(okk, "copyBlocks", key("Set"), "target slice replaced by the complete fresh slice, after the fill loop", "the target slice must be replaced once, by the freshly made slice, after every element was filled without error", call.Pos())
-		case "copyBlock":
-			// argument struct-kinded
-			okk := false
-			arg := stripParens(call.Args[0])
-			if id, ok := arg.(*ast.Ident); ok {
-				okk = c.hasKindFact(facts, c.objOf(id), "Struct")
-			} else if ic, ok := arg.(*ast.CallExpr); ok && c.calleeName(ic) == "reflect.Value.Index" {
-				// element kind checked through Type().Elem().Kind()
-				for _, f := range splitFacts(facts) {
-					be, ok := f.Cond.(*ast.BinaryExpr)
-					if !ok || !((be.Op == token.NEQ && !f.Pos) || (be.Op == token.EQL && f.Pos)) || qname(c.objOf(be.Y)) != "reflect.Struct" {
-						continue
-					}
-					lhs := c.initDef(f, be.X)
-					if kc, ok := stripParens(lhs).(*ast.CallExpr); ok && c.calleeName(kc) == "reflect.Type.Kind" {
-						if sel, ok := kc.Fun.(*ast.SelectorExpr); ok {
-							if ec, ok := stripParens(sel.X).(*ast.CallExpr); ok && c.calleeName(ec) == "reflect.Type.Elem" {
-								okk = true
-							}
-						}
-					}
-				}
-			}
-			check(okk, "copyBlocks", key("copyBlock-arg"), "argument's kind is Struct", "copyBlock is called with a value whose Kind() == Struct was not established", call.Pos())
-		}
-	})
-	// binding nil check first
-	okNil := false
-	if len(copyBlocks.Body.List) > 0 {
-		if ifs, ok := copyBlocks.Body.List[0].(*ast.IfStmt); ok {
-			if be, ok := stripParens(ifs.Cond).(*ast.BinaryExpr); ok && be.Op == token.EQL && isNilIdent(be.Y) && c.isObj(be.X, c.paramObj(copyBlocks, 1)) {
-				okNil = true
-			}
-		}
-	}
-	check(okNil, "copyBlocks", "nil-binding", "binding == nil -> error first", "copyBlocks must reject a nil binding before anything else", copyBlocks.Pos())
-	// unknown binding type: default clause returns an error
-	okDefault := false
-	ast.Inspect(copyBlocks.Body, func(n ast.Node) bool {
-		if ts, ok := n.(*ast.TypeSwitchStmt); ok {
-			for _, cl := range ts.Body.List {
-				cc := cl.(*ast.CaseClause)
-				if cc.List == nil && len(cc.Body) == 1 {
-					if rs, ok := cc.Body[0].(*ast.ReturnStmt); ok && len(rs.Results) == 1 && !isNilIdent(rs.Results[0]) {
-						okDefault = true
-					}
-				}
-			}
-		}
-		return true
-	})
-	check(okDefault, "copyBlocks", "unknown-binding", "other binding types -> error", "copyBlocks must return an error for a binding type it does not know", copyBlocks.Pos())
-
-	// ---- copyBlock and its closure
-	var setField *ast.FuncLit
-	var setFieldObj types.Object
-	ast.Inspect(copyBlock.Body, func(n ast.Node) bool {
-		if as, ok := n.(*ast.AssignStmt); ok && len(as.Rhs) == 1 {
-			if lit, ok := as.Rhs[0].(*ast.FuncLit); ok {
-				setField = lit
-				setFieldObj = c.objOf(as.Lhs[0])
-			}
-		}
-		return true
-	})
-	vParam := c.paramObj(copyBlock, 0)
-	counts = map[string]int{}
-	var scan func(root ast.Node, fn string)
-	scan = func(root ast.Node, fn string) {
-		walkCalls(root, true, func(call *ast.CallExpr) {
-			name := c.calleeName(call)
-			facts := c.factsAt(root, call)
-			switch name {
-			case "reflect.Value.Type":
-				obj := recvObj(call)
-				if obj == vParam {
-					check(true, fn, key("v.Type"), "v is struct-kinded by copyBlock's precondition (established at every call site)", "", call.Pos())
-					return
-				}
-				// ValueOf(x).Type(): x != nil
-				def, n := c.singleDef(root, obj)
-				okk := false
-				if dc, ok := def.(*ast.CallExpr); ok && n == 1 && c.calleeName(dc) == "reflect.ValueOf" {
-					xobj := c.objOfExpr(dc.Args[0])
-					for _, f := range splitFacts(facts) {
-						if be, ok := f.Cond.(*ast.BinaryExpr); ok && isNilIdent(be.Y) && c.isObj(be.X, xobj) {
-							if (be.Op == token.EQL && !f.Pos) || (be.Op == token.NEQ && f.Pos) {
-								okk = true
-							}
-						}
-					}
-				}
-				check(okk, fn, key("ValueOf(x).Type"), "after x != nil", "reflect.ValueOf(x).Type() is reached without a dominating x != nil check (panics on the zero Value)", call.Pos())
-			case "reflect.Value.Set":
-				obj := recvObj(call)
-				canSet, assignable := false, false
-				for _, f := range splitFacts(facts) {
-					if _, ok := c.methodOn(f.Cond, obj, "reflect.Value.CanSet"); ok && f.Pos {
-						canSet = true
-					}
-					if ac, ok := stripParens(f.Cond).(*ast.CallExpr); ok && c.calleeName(ac) == "reflect.Type.AssignableTo" && f.Pos {
-						// bt.AssignableTo(st): bt is the value's type, st the field's type
-						sel := ac.Fun.(*ast.SelectorExpr)
-						bt := c.initDef(f, sel.X)
-						st := c.initDef(f, ac.Args[0])
-						vobj := c.objOfExpr(call.Args[0])
-						if tc, ok := stripParens(bt).(*ast.CallExpr); ok && c.calleeName(tc) == "reflect.Value.Type" && recvObj(tc) == vobj {
-							if ss, ok := stripParens(st).(*ast.SelectorExpr); ok && ss.Sel.Name == "Type" {
-								assignable = true
-							}
-						}
-					}
-				}
-				check(canSet && assignable, fn, key("dest.Set"), "after CanSet() and value.Type().AssignableTo(field type)", fmt.Sprintf("Value.Set is reached without both dominating checks: CanSet %v, AssignableTo(field type) %v", canSet, assignable), call.Pos())
-			case "reflect.Value.FieldByIndexErr":
-				obj := recvObj(call)
-				check(obj == vParam, fn, key("FieldByIndexErr"), "on the struct value, error-returning", "FieldByIndexErr must be applied to copyBlock's struct value", call.Pos())
-			case "reflect.Type.Field", "reflect.Type.NumField", "reflect.Type.FieldByNameFunc":
-				// t := v.Type()
-				obj := recvObj(call)
-				def, n := c.singleDef(copyBlock.Body, obj)
-				okk := false
-				if dc, ok := def.(*ast.CallExpr); ok && n == 1 && c.calleeName(dc) == "reflect.Value.Type" && recvObj(dc) == vParam {
-					okk = true
-				}
-				check(okk, fn, key(strings.TrimPrefix(name, "reflect.")), "on the type of the struct value", name+" must be applied to the type of copyBlock's (struct-kinded) value", call.Pos())
-			case "copyBlock":
-				okk := false
-				if id, ok := stripParens(call.Args[0]).(*ast.Ident); ok {
-					okk = c.hasKindFact(facts, c.objOf(id), "Struct")
-				}
-				check(okk, fn, key("copyBlock-arg"), "destination's Kind() == Struct", "the recursive copyBlock is called with a destination whose Kind() == Struct was not established (a pointer, interface or scalar field for a nested block panics in NumField)", call.Pos())
-			}
-		})
-		// type assertions x.(Block)
-		ast.Inspect(root, func(n ast.Node) bool {
-			if lit, ok := n.(*ast.FuncLit); ok && ast.Node(lit) != root {
-				return false
-			}
-			ta, ok := n.(*ast.TypeAssertExpr)
-			if !ok || ta.Type == nil {
-				return true
-			}
-			// comma-ok form is safe
-			if as, ok := parentMap(root)[ta].(*ast.AssignStmt); ok && len(as.Lhs) == 2 {
-				return true
-			}
-			if !isNamed(c.typeOf(ta.Type), bclPath, "Block") {
-				return true
-			}
-			okk := false
-			for _, f := range splitFacts(c.factsAt(root, ta)) {
-				if ac, ok := stripParens(f.Cond).(*ast.CallExpr); ok && f.Pos && c.calleeName(ac) == "reflect.Type.AssignableTo" && len(ac.Args) == 1 {
-					if id, ok := stripParens(ac.Args[0]).(*ast.Ident); ok && id.Name == "blockType" {
-						okk = true
-					}
-				}
-			}
-			check(okk, fn, key("x.(Block)"), "under Type().AssignableTo(blockType)", "the unchecked assertion x.(Block) is not under the assignability test against the Block type", ta.Pos())
-			return true
-		})
-	}
-	scan(copyBlock.Body, "copyBlock")
-	if setField != nil {
-		scan(setField.Body, "setField")
-	}
-	_ = setFieldObj
-}
-
-// ruleErrorsPropagate: results of setField / copyBlock are never dropped; every field is visited.
-func ruleErrorsPropagate(c *Ctx, r *Report, rule string) {
-	r.rule(rule, 4, "every result of setField and copyBlock is returned or tested; the only tolerated failure is a missing Name field for an unnamed block; the field loop visits every key (no continue/break) and stops at the first error")
-	funcs := c.bindFuncs()
-	if len(funcs) != 2 {
-		r.bad(rule, "anchors", "copyBlocks / copyBlock not found", "")
-		return
-	}
-	type errSite struct {
-		call *ast.CallExpr
-		ifs  *ast.IfStmt
-		fd   *ast.FuncDecl
-	}
-	var errIfs []errSite
-	for _, fd := range funcs {
-		pm := parentMap(fd.Body)
-		idx := 0
-		walkCalls(fd.Body, false, func(call *ast.CallExpr) {
-			name := c.calleeName(call)
-			isSetField := false
-			if c.isFieldSetterCall(call) {
-				isSetField = true
-			}
-			if name != "copyBlock" && !isSetField {
-				return
-			}
-			idx++
-			key := fmt.Sprintf("%s/call#%d", fd.Name.Name, idx)
-			switch p := pm[call].(type) {
-			case *ast.ReturnStmt:
-				r.ok(rule, key, "returned")
-			case *ast.AssignStmt:
-				// err = f(...); next statement tests err and returns it — or the same in an if header
-				var ifs *ast.IfStmt
-				if parentIf, isInit := pm[p].(*ast.IfStmt); isInit && parentIf.Init == ast.Stmt(p) {
-					ifs = parentIf
-				} else if list, i := stmtListOf(pm, p); list != nil && i+1 < len(list) {
-					ifs, _ = list[i+1].(*ast.IfStmt)
-				}
-				ok := false
-				if ifs != nil {
-					if atoms, pure := c.nnf(ifs.Cond, true, nil).conjuncts(); pure && len(atoms) == 1 {
-						if be, isB := atoms[0].E.(*ast.BinaryExpr); isB && ((be.Op == token.NEQ) == atoms[0].Pos) && isNilIdent(be.Y) && c.isObj(be.X, c.objOf(p.Lhs[0])) {
-							// the body returns err on every path except the documented Name tolerance (judged below)
-							ast.Inspect(ifs.Body, func(n ast.Node) bool {
-								if rs, isR := n.(*ast.ReturnStmt); isR && len(rs.Results) == 1 && c.isObj(rs.Results[0], c.objOf(p.Lhs[0])) {
-									ok = true
-								}
-								return true
-							})
-							if ok {
-								errIfs = append(errIfs, errSite{call, ifs, fd})
-							}
-						}
-					}
-				}
-				r.check(ok, rule, key, "error tested and returned", "the error of a setField/copyBlock call is not tested and returned right after the call", c.pos(call.Pos()))
-			default:
-				r.bad(rule, key, "the result of a setField/copyBlock call is dropped", c.pos(call.Pos()))
-			}
-		})
-	}
-	// the Name tolerance: the only place where an error is looked at and not returned
-	copyBlock := funcs[1]
-	tolerated, okTol := 0, true
-	whyTol := ""
-	judge := func(facts []fact, site errSite) {
-		tolerated++
-		emptyName, mapErr := false, false
-		for _, f := range facts {
-			a := condAtom{E: stripParens(f.Cond), Pos: f.Pos, Init: f.Init}
-			if x, isEmpty, ok := c.emptyStringCmp(a); ok && isEmpty && c.fieldPath(x) == "<Block>.Name" {
-				emptyName = true
-			}
-			// the comma-ok result of err.(fieldMappingErr)
-			if id, ok := a.E.(*ast.Ident); ok && a.Pos {
-				def := c.initDef(f, id)
-				if def == ast.Expr(id) {
-					if d, n := c.singleDef(copyBlock.Body, c.objOf(id)); n == 1 {
-						def = d
-					}
-				}
-				if ta, ok := stripParens(def).(*ast.TypeAssertExpr); ok && ta.Type != nil && typeShort(c.typeOf(ta.Type)) == "fieldMappingErr" {
-					mapErr = true
-				}
-			}
-		}
-		isName := false
-		if len(site.call.Args) == 2 {
-			if s0, isS := c.strConst(site.call.Args[0]); isS && s0 == "Name" {
-				isName = true
-			}
-		}
-		if !emptyName || !mapErr || !isName {
-			okTol = false
-			whyTol = fmt.Sprintf("at %s (empty block name known: %v, field-mapping error known: %v, the Name call: %v)", c.pos(site.ifs.Pos()), emptyName, mapErr, isName)
-		}
-	}
-	for _, site := range errIfs {
-		if site.fd != copyBlock {
-			// copyBlocks: every tested error must be returned unconditionally
-			if n := len(site.ifs.Body.List); n == 0 {
-				okTol, whyTol = false, "empty error branch at "+c.pos(site.ifs.Pos())
-			} else if _, isR := site.ifs.Body.List[n-1].(*ast.ReturnStmt); !isR {
-				okTol, whyTol = false, "an error is not returned at "+c.pos(site.ifs.Pos())
-			}
-			continue
-		}
-		// gotos out of the error branch
-		hasGoto := false
-		ast.Inspect(site.ifs.Body, func(n ast.Node) bool {
-			if bs, ok := n.(*ast.BranchStmt); ok && bs.Tok == token.GOTO {
-				hasGoto = true
-				judge(splitFacts(c.factsAt(copyBlock.Body, bs)), site)
-			}
-			return true
-		})
-		// falling off the end of the error branch
-		n := len(site.ifs.Body.List)
-		if n > 0 {
-			if _, isR := site.ifs.Body.List[n-1].(*ast.ReturnStmt); isR {
-				continue
-			}
-			if bs, isB := site.ifs.Body.List[n-1].(*ast.BranchStmt); isB && bs.Tok == token.GOTO && hasGoto {
-				continue
-			}
-		}
-		// facts at the end of the branch: negations of its leaving guards
-		var facts []fact
-		pure := true
-		for _, st := range site.ifs.Body.List {
-			if as, isA := st.(*ast.AssignStmt); isA && as.Tok == token.DEFINE && len(as.Rhs) == 1 {
-				if _, isTA := stripParens(as.Rhs[0]).(*ast.TypeAssertExpr); isTA {
-					continue // _, ok := err.(T): a pure definition
-				}
-			}
-			inner, isIf := st.(*ast.IfStmt)
-			if !isIf || inner.Else != nil || len(inner.Body.List) == 0 {
-				pure = false
-				continue
-			}
-			if _, isR := inner.Body.List[len(inner.Body.List)-1].(*ast.ReturnStmt); !isR {
-				pure = false
-				continue
-			}
-			init, _ := inner.Init.(*ast.AssignStmt)
-			facts = append(facts, fact{inner.Cond, false, init})
-		}
-		if !pure {
-			okTol, whyTol = false, "the error branch at "+c.pos(site.ifs.Pos())+" can end without returning the error"
-			continue
-		}
-		judge(splitFacts(facts), site)
-	}
-	r.check(tolerated <= 1 && okTol, rule, "name-tolerance", "a failed Name mapping is ignored only for an unnamed block and only for the field-mapping error", "copyBlock skips an error outside the single documented case (missing Name field while block.Name is empty) "+whyTol, c.pos(copyBlock.Pos()))
-	// field loop: range over the sorted keys slice, single setField, no continue/break
-	okLoop := false
-	ast.Inspect(copyBlock.Body, func(n ast.Node) bool {
-		rs, ok := n.(*ast.RangeStmt)
-		if !ok {
-			return true
-		}
-		calls, jumps := 0, 0
-		ast.Inspect(rs.Body, func(x ast.Node) bool {
-			if call, ok := x.(*ast.CallExpr); ok {
-				if c.isFieldSetterCall(call) {
-					calls++
-				}
-			}
-			if bs, ok := x.(*ast.BranchStmt); ok && (bs.Tok == token.CONTINUE || bs.Tok == token.BREAK) {
-				jumps++
-			}
-			return true
-		})
-		if calls == 1 && jumps == 0 {
-			okLoop = true
-		}
-		return true
-	})
-	r.check(okLoop, rule, "all-fields-visited", "one setField per key, no continue/break", "the field loop must call setField for every key of the block and must not skip or stop early except on error", c.pos(copyBlock.Pos()))
 }
 
 // ruleMapRange: every range over a map is order-insensitive.
